@@ -125,6 +125,11 @@ pub struct Checked {
 /// The connection-level oracle. `expect_served`: how many requests must have been handled.
 /// `io_ok`: no transport fault was injected (everything must be complete).
 pub fn check_conn(case: &ConnCase, model: &[ReqModel], out: &[u8], invs: &[Invocation], expect_served: usize, l: &mut crate::ev::Local) -> Result<Checked, (String, String)> {
+    check_conn_ext(case, model, out, invs, expect_served, l, &[])
+}
+
+/// `allowed_errors`: error kinds a handler may legitimately have seen (fault-injection runs).
+pub fn check_conn_ext(case: &ConnCase, model: &[ReqModel], out: &[u8], invs: &[Invocation], expect_served: usize, l: &mut crate::ev::Local, allowed_errors: &[std::io::ErrorKind]) -> Result<Checked, (String, String)> {
     let (recs, tail) = spec::decode_output(out).map_err(|m| ("output-malformed".to_string(), m))?;
     if tail != out.len() {
         return Err(("output-partial-record".into(), format!("the output ends with {} bytes of an incomplete record", out.len() - tail)));
@@ -181,7 +186,7 @@ pub fn check_conn(case: &ConnCase, model: &[ReqModel], out: &[u8], invs: &[Invoc
         }
         for (what, kind) in &inv.errors {
             let aborted = matches!(m.kind, ReqKind::AbortedLater(_));
-            if !(aborted && *kind == std::io::ErrorKind::ConnectionAborted) {
+            if !(aborted && *kind == std::io::ErrorKind::ConnectionAborted) && !allowed_errors.contains(kind) {
                 return Err(("handler-unexpected-error".into(), format!("request {i}: handler operation {what} failed with {kind:?} ({})", if aborted { "only ConnectionAborted is expected after a client abort" } else { "no error is expected" })));
             }
         }
